@@ -17,7 +17,8 @@ Ops == {"build", "new", "append", "append_after_reload"}
 \* space because callers special-case some of them: io.EOF / a wrapped io.EOF, io.ErrUnexpectedEOF, errors with Temporary() or
 \* Timeout() (EAGAIN, EINTR, deadline exceeded), a *PathError; "..._with_data" = the last bytes and the error arrive in ONE Read.
 Faults == {"error", "eof", "unexpected_eof", "zero_then_error", "temporary", "interrupted", "deadline", "wrapped_eof",
-           "path_error", "error_with_data", "eof_with_data"}
+           "path_error", "error_with_data", "eof_with_data",
+           "typed_nil"}      \* a nil *os.File inside a non-nil io.Reader: Read fails after 0 bytes (differs from "error" only for k = 0)
 Chunks == {1, 7, 32}                                               \* maximal bytes per Read call (short reads)
 
 VARIABLES op, k, fault, chunk, pos, outcome
